@@ -38,6 +38,7 @@ REGISTRY = {
     "T7lazy": ("T7lazy.v", "t7_lazy", "gen"),
     "T8": ("T8.v", "t8_kwargs", "gen"),
     "T8fwd": ("T8fwd.v", "t8_forward", "gen"),
+    "T9text": ("T9text.v", "t9_text", "gen"),
 }
 
 
